@@ -285,6 +285,8 @@ def run(prop_id, tier, seed, replay=None):
             seen_known.setdefault(v["sig"], v)
         else:
             unlisted.append(v)
+    if seen_known:
+        sys.stdout.write("\n")        # own line, whatever the code under test left unfinished on the terminal
     for sig, v in seen_known.items():
         print("KNOWN-FINDING: property=%s %s [%s]" % (prop_id, known[sig]["what"], sig))
     for sig in known:
@@ -314,8 +316,17 @@ def run(prop_id, tier, seed, replay=None):
         path = write_replay(prop_id, "unproved", payload)
         lines.append("VIOLATION property=%s replay=%s no-failing-input-found" % (prop_id, path))
         rc = 1
+    if lines:
+        # the code under test may have left an unfinished line on the terminal (a log record written by a worker without
+        # its newline yet): every VIOLATION line must stand on a line of its own
+        try:
+            sys.stderr.flush()
+        except Exception:  # noqa
+            pass
+        sys.stdout.write("\n")
     for l in lines:
         print(l)
+    sys.stdout.flush()
     write_evidence(mod, prop_id, tier, seed, P, total, extra_cov, len(unlisted), list(seen_known), t0,
                    tie_failures=tie_failures, searched=searched)
     print("%s %s: P %d/%d, cases %d (model-compared %d, distinct non-trivial %d), disagreements %d, "
